@@ -9,7 +9,9 @@ Space (explorer I), three complete finite grids:
 import itertools
 import numpy as np
 
-from ..engine.explore import Outcome
+from ..engine.explore import Outcome, Refill
+
+_refill = Refill()
 from ..engine import enum
 
 PID = 'C09'
@@ -38,8 +40,21 @@ def bounds(tier):
             'cycles': CYCLES + (11.5, 33.0, 64.25, 6.0)}
 
 
+_noise_imfs = {}
+
+
 def struct_signal(name, seed):
     N, ncol, kind = name
+    if kind == 'noise-imfs':
+        # broadband IMFs: the first columns of a sifted noise record (what the transforms are fed in practice)
+        key = (N, seed)
+        if key not in _noise_imfs:
+            from emd.sift import sift
+            from . import signals
+            tab = signals.noise_table(seed)
+            x = np.concatenate([tab[i % 8] * (1 + 0.1 * i) for i in range(-(-N // 256))])[:N]
+            _noise_imfs[key] = np.asarray(sift(x, max_imfs=4))
+        return _noise_imfs[key][:, :ncol].copy()
     t = np.arange(N) / N
     cols = []
     for j in range(ncol):
@@ -65,6 +80,11 @@ def cases(tier, seed):
                 for m in METHODS:
                     for sr in SRS:
                         yield ('struct', (N, ncol, kind), m, sr, seed)
+    # broadband IMFs (sifted noise), where the amplitude normalisation needs several passes
+    for N in (256, 1024, 4096) if tier == 'quick' else (200, 256, 1000, 1024, 4096, 5000):
+        for ncol in (1, 3):
+            for m in METHODS:
+                yield ('struct', (N, ncol, 'noise-imfs'), m, 128.0, seed)
     # larger scope: many IMF columns at once - every column must come out as if it had been transformed alone
     for ncol in (17, 33):
         for m in METHODS:
@@ -152,7 +172,11 @@ def check_struct(case):
     base = None
     for sc in SCALES:
         try:
-            IP, IF, IA = frequency_transform((X * sc).copy(), sr, m)
+            # handed over in a caller-owned buffer that is refilled in place from call to call
+            Xin = _refill(X * sc, 'struct')
+            IP, IF, IA = frequency_transform(Xin, sr, m)
+            if not np.array_equal(Xin, X * sc):
+                viols.append(('struct:input-modified', '%s scale %g: the IMF array was changed by the call' % (tag, sc)))
         except Exception as e:
             viols.append(('struct:raise:%s' % type(e).__name__, '%s scale %g raised %r' % (tag, sc, e)))
             continue
@@ -203,7 +227,7 @@ def check_struct(case):
                 viols.append(('norm:scale', '%s clip=%s: normalised output depends on input scale (max diff %.3g)' % (tag, clip, np.max(np.abs(a1 - a2)))))
             if clip and not np.all(np.abs(a1) <= 1):
                 viols.append(('norm:clip', '%s: |normalised| exceeds 1 with clip=True' % tag))
-            if not clip and not np.max(np.abs(a1)) <= 1.5:
+            if not clip and kind != 'noise-imfs' and not np.max(np.abs(a1)) <= 1.5:     # (tones converge; broadband columns need not)
                 viols.append(('norm:magnitude', '%s: normalised amplitude reaches %.3g' % (tag, np.max(np.abs(a1)))))
     return Outcome(cls='struct', transitions=trans, viols=viols, nontrivial=ncol > 1)
 
